@@ -37,6 +37,11 @@ CHECKS = {
          "Held on every explored sequence: all sequences of depth 2 (quick) / 3 (thorough) over 39 operations from three base states plus 500 / 20000 random sequences of length 8-20, all queries on all fields after every step, plus 90- and 250-term range cases. Field registration after documents exist is a known finding and is excluded from generation.",
          "Trusted: the 60-line scan model in c09.go. Range bounds are kept strictly between term values; KVTermCount cannot distinguish the string \"\" from the number 0, the comparison treats them as one key.",
          "5/C09"),
+ "C10": ("exploration",
+         "runtime reference-model monitor per driver: operation sequences on the kvi.KVInterface of badger, bolt, level and pebble executed in worker processes and compared, after every operation, with a sorted-map model (point reads, existence, forward/reverse seek walks, several seeks per view, reads inside transactions); plus C03 histories and C01 programs replayed on kvgraph over each driver against the shared models",
+         "Held on every explored sequence for all four registered drivers: depth 2 (quick) / 3 (thorough) exhaustive over 27 operations plus 300 / 20000 random sequences of length 10-40 per driver, about 80 observations after every operation; 100 / 3000 mutation histories and 200 / 5000 traversals replayed per driver. Keys over a 4-byte alphabet with shared prefixes, empty values included.",
+         "Trusted: the sorted-map model (40 lines) and the documented SeekReverse convention (largest key <= k, then descending). Rollback on error, the empty key and Key()/Value() on an invalid iterator are outside the property.",
+         "5/C10"),
 }
 
 NOT_YET = "check not built yet in this session (design in DESIGN.md section 5); claimed once the monitor exists and is silent on the unchanged tree"
